@@ -1157,6 +1157,52 @@ def unit_strarm(inj, scratch):
     return dict(functions=[r], dropped=[d], assumptions=['regex crate: Regex::new(p).is_match(s) decides whether s matches p (T3)'])
 
 
+def unit_tokenloop(inj, scratch):
+    """Parser::parse: the body of the token collection loop `while let Some(lexem) = lexer.next_lexem() {..}` (verbatim)."""
+    frag_begin(inj)
+    s = src('src/parser.rs', scratch)
+    it = s.fn('parse', impl='Parser')
+    a, o, c = s.block_after(r'while\s+let\s+Some\(lexem\)\s*=\s*lexer\.next_lexem\(\)', s.body_span(it), what='Parser::parse token loop')
+    body = dedent(s.text[o:c + 1])
+    text = ("""pub mod tokenloop {
+use crate::lexer::Lexem;
+pub struct Parser { pub lexems: Vec<Lexem> }
+impl Parser {
+// ---- verbatim: body of `while let Some(lexem) = lexer.next_lexem()` in Parser::parse ----
+pub fn frag_collect(&mut self, lexem: Lexem) """ + body + """
+}
+fn kept(l: Lexem) -> bool {
+    let mut p = Parser { lexems: Vec::new() };
+    let copy = l.clone();
+    p.frag_collect(l);
+    p.lexems.len() == 1 && p.lexems[0] == copy
+}
+// every token the lexer produces reaches the parser - in particular an empty quoted literal, which is a value
+#[kani::proof]
+#[kani::unwind(8)]
+fn c02_token_loop() {
+    kani::cover!(true);
+    assert!(kept(Lexem::String(String::new())), "OBL C02.literal.empty: the empty quoted literal is kept as a token");
+    assert!(kept(Lexem::String(String::from("a"))), "OBL C02.literal.empty: quoted literal");
+    assert!(kept(Lexem::RawString(String::from("name"))), "OBL C02.literal.empty: word");
+    assert!(kept(Lexem::Comma), "OBL C02.literal.empty: comma");
+    assert!(kept(Lexem::Operator(String::from("="))), "OBL C02.literal.empty: operator");
+}
+#[kani::proof]
+#[kani::unwind(8)]
+fn canary_tokenloop_must_fail() {
+    let mut p = Parser { lexems: Vec::new() };
+    p.frag_collect(Lexem::Comma);
+    assert!(p.lexems.len() == 0, "CANARY must fail");
+}
+}
+""")
+    inj.new_file(FRAG_FILE, text)
+    r, d = frag_record('tokenloop::Parser::frag_collect', 'src/parser.rs', 'fn Parser::parse / body of `while let Some(lexem) = lexer.next_lexem() {..}` (verbatim, as a method of a shim Parser with the real Lexem type)',
+                       body, body, ['Parser -> shim struct with the field lexems: Vec<Lexem>'], 'the lexer; everything after the loop')
+    return dict(functions=[r], dropped=[d])
+
+
 def unit_variant(inj, scratch):
     rel = 'src/function.rs'
     s = src(rel, scratch)
